@@ -740,11 +740,31 @@ package middleware
 //@ ensures [C02:auth] ret(HF,0,1) ==> calls(BA) == 1 && arg(BA,0,1) == operation && unboxptr(arg(NR,0,1), "*routeEntry").Authenticators == ret(BA,0,0) && calls(AZ) == 1 && unboxptr(arg(NR,0,1), "*routeEntry").Authorizer == ret(AZ,0,0)
 //@ ensures [C06:defaultconsumes] ret(HF,0,1) ==> calls(DC) == 1 && calls(DP) == 1 && (ret(DC,0,0) != "" ==> calls(CI) >= 1 && arg(CI,0,1) == ret(DC,0,0))
 
-// (trusted until parameter binding is under contract, see DESIGN.md C03)
-//@ func NewUntypedRequestBinder
+// The request binder holds one parameter binder per declared parameter, each with its own copy of the
+// declaration and the format registry: the shape (*UntypedRequestBinder).Bind relies on.
+// (logging plumbing: a method value of the configured logger or a muted func; contract assumed, body not verified)
+//@ func debugLogfFunc
 //@ trusted
-//@ ensures result != nil && fresh(result)
+//@ ensures result != nil
 //@ assigns \opaque
+
+//@ func newUntypedParamBinder
+//@ stable comp:F!github.com/go-openapi/spec.SimpleSchema!Default, comp:F!github.com/go-openapi/spec.SimpleSchema!Type, comp:F!github.com/go-openapi/spec.SimpleSchema!Format, comp:F!github.com/go-openapi/spec.SimpleSchema!Items, comp:F!github.com/go-openapi/spec.SimpleSchema!CollectionFormat, comp:F!github.com/go-openapi/spec.ParamProps!In, comp:F!github.com/go-openapi/spec.ParamProps!Name, comp:F!github.com/go-openapi/spec.ParamProps!Required
+//@ ensures [C03:binder] result != nil && fresh(result) && result.Name == param.ParamProps.Name && result.parameter != nil && fresh(result.parameter) && result.formats == formats
+//@ ensures [C03:copy] result.parameter.In == param.ParamProps.In && result.parameter.Name == param.ParamProps.Name && result.parameter.Required == param.ParamProps.Required && result.parameter.Type == param.SimpleSchema.Type && result.parameter.Format == param.SimpleSchema.Format && result.parameter.Items == param.SimpleSchema.Items && result.parameter.CollectionFormat == param.SimpleSchema.CollectionFormat && result.parameter.Default == param.SimpleSchema.Default
+//@ assigns \opaque
+
+//@ func NewUntypedRequestBinder
+//@ watch NB = call newUntypedParamBinder tag mappos-1
+//@ stable parameters[*]
+//@ ensures [C03:requestbinder] result != nil && fresh(result) && result.Parameters == parameters && result.Spec == spec && result.Formats == formats && result.debugLogf != nil && result.paramBinders != nil
+//@ ensures [C03:binders] forall k string :: in(k, result.paramBinders) <==> in(k, parameters)
+//@ ensures [C03:eachbinder] forall k string :: in(k, parameters) ==> mapat(result.paramBinders, k) != nil && mapat(result.paramBinders, k).parameter != nil && mapat(result.paramBinders, k).formats == formats && called(NB, inloop(0, mapidx(k))) && mapat(result.paramBinders, k) == ret(NB, inloop(0, mapidx(k)), 0)
+//@ assigns \opaque
+//@ loop 0 invariant binders != nil && fresh(binders) && 0 <= mappos && mappos <= mapcard
+//@ loop 0 invariant forall k string :: in(k, binders) <==> in(k, parameters) && mapidx(k) < mappos
+//@ loop 0 invariant forall k string :: in(k, binders) ==> called(NB, mapidx(k)) && mapat(binders, k) == ret(NB, mapidx(k), 0) && mapat(binders, k) != nil && mapat(binders, k).parameter != nil && mapat(binders, k).formats == formats
+//@ loop 0 invariant forall i int :: called(NB,i) ==> 0 <= i && i < mappos
 
 //@ func (*UntypedRequestBinder).setDebugLogf
 //@ requires o != nil
